@@ -317,6 +317,8 @@ NOT_CLOSING_P = ('ST170M', 'ST240M')
 def not_closing(t, p):
     if t == 'BT470BG':
         return 'gamma 2.8: a worst-case linear-light error of 1e-5 in a near-zero component of a saturated colour (a-priori rounding through the inverse opsin matrix) becomes 0.016 after x^(1/2.8); bound 1.5-1.7 x budget'
+    if t == 'XVYCC':
+        return 'odd extension: a slightly negative linear component may be perturbed to a positive one, where the curve has infinite slope; the bound closed only marginally (0.9999 x budget after 7700 boxes) on one version of the analyser and not within 9000 boxes on the next: not claimed'
     if t in BT1886_FAMILY and p in NOT_CLOSING_P:
         return 'bound 1.015 x budget: worst-case rounding through the inverse opsin and primaries matrices for a saturated colour with one near-black component and one clipped negative component'
     return None
